@@ -14,6 +14,7 @@ import (
 	"runtime"
 	"strings"
 	"sync"
+	"sync/atomic"
 	"time"
 )
 
@@ -194,6 +195,9 @@ func lastN(s string, n int) string {
 	return s
 }
 
+// Stalls counts jobs that were retried after a stall (reported in evidence notes by callers).
+var Stalls atomic.Int64
+
 // Map runs all jobs and calls handle (serialised, in completion order) with each result.
 // A worker that dies or stalls yields an error for the job it was running and is replaced.
 func (p *Pool) Map(jobs []any, handle func(i int, res json.RawMessage, err error)) {
@@ -244,7 +248,19 @@ func (p *Pool) Map(jobs []any, handle func(i int, res json.RawMessage, err error
 					}
 				}
 				res, err := w.call(b, timeout)
-				if err != nil && (strings.HasPrefix(err.Error(), "worker") || strings.HasPrefix(err.Error(), "HARNESS-STALL")) {
+				if err != nil && strings.HasPrefix(err.Error(), "HARNESS-STALL") {
+					// A stall can be machine load (the workers are pinned and compete with whatever
+					// else runs): one retry on a fresh worker with three times the deadline. A job
+					// that stalls twice is reported.
+					w.kill()
+					if w, err = p.start(slot); err == nil {
+						Stalls.Add(1)
+						res, err = w.call(b, 3*timeout)
+					} else {
+						w = nil
+					}
+				}
+				if err != nil && w != nil && (strings.HasPrefix(err.Error(), "worker") || strings.HasPrefix(err.Error(), "HARNESS-STALL")) {
 					w.kill()
 					w = nil
 				}
